@@ -335,14 +335,17 @@ pub fn drive(a: &Args) -> i32 {
             } else {
                 rng.gen_range(0..100)
             };
+            // burst segments: every thousand operations write to a band of keys of their own, so that the records of
+            // one rotated file are never masked by later writes (a lost file shows at the final restart)
+            let band = |rng: &mut rand_chacha::ChaCha8Rng| if collide { ((i / 1000) * 40 + rng.gen_range(1..=40)).min(nk) } else { rng.gen_range(1..=nk) };
             let (begin, res): (Value, Result<Value, String>) = if kind < 60 {
-                let k = rng.gen_range(1..=nk);
+                let k = band(&mut rng);
                 let v = next_tok;
                 next_tok += 1;
                 let r = rt.block_on(m.upsert(key_name(k), val_str(v)));
                 (json!({"op":"upsert","chg":[[k, v]]}), r.map(|old| json!({"old": old.map(|s| val_tok(&s)).unwrap_or(0)})).map_err(|e| e.to_string()))
             } else if kind < 78 {
-                let k = rng.gen_range(1..=nk);
+                let k = band(&mut rng);
                 let r = rt.block_on(m.delete(&key_name(k)));
                 (json!({"op":"delete","chg":[[k, 0]]}), r.map(|old| json!({"old": old.map(|s| val_tok(&s)).unwrap_or(0)})).map_err(|e| e.to_string()))
             } else if kind < 90 && !long {
